@@ -779,7 +779,11 @@ func c09MaxRat(a, b *big.Rat) *big.Rat {
 type c09Bound struct {
 	weak   *big.Rat // metric-less pods not charged, LSE cpu charged min(request, usage)
 	lse    *big.Rat // + LSE pods charged their cpu request under the usage policy
-	strict *big.Rat // + metric-less high-priority pods charged at their request  (= the statement)
+	strict *big.Rat // + metric-less high-priority pods charged at their request
+	// full: + dangling pod metrics that carry NO priority class. koordinator's documented definition of high priority in this
+	// calculation is "not Batch or Free" (plugin.go: "HP means High-Priority (i.e. not Batch or Free) pods"; "count them
+	// according to the metric priority"): a metric without a class is not known to be low priority and is charged.  (= the statement)
+	full *big.Rat
 	pct    *big.Rat // percentage cap, nil when not configured
 	policy string
 }
@@ -830,7 +834,7 @@ func (cs *c09Case) bound(r, zi int) c09Bound {
 	}
 	avail.Sub(avail, new(big.Rat).Mul(base, share))
 
-	weak, lse, strict := new(big.Rat), new(big.Rat), new(big.Rat)
+	weak, lse, strict, unclassified := new(big.Rat), new(big.Rat), new(big.Rat), new(big.Rat)
 	for i := range cs.Pods {
 		p := &cs.Pods[i]
 		if !p.active() || !p.hp() {
@@ -883,9 +887,13 @@ func (cs *c09Case) bound(r, zi int) c09Bound {
 				lse.Add(lse, u)
 				strict.Add(strict, u)
 			}
+			if d.Prio == "" && !inList[d.Name] {
+				unclassified.Add(unclassified, new(big.Rat).Mul(c09R(d.Use[r]), share))
+			}
 		}
 	}
 	b := c09Bound{policy: pol}
+	b.full = new(big.Rat).Sub(new(big.Rat).Sub(avail, strict), unclassified)
 	b.weak = new(big.Rat).Sub(avail, weak)
 	b.lse = new(big.Rat).Sub(avail, lse)
 	b.strict = new(big.Rat).Sub(avail, strict)
@@ -936,6 +944,9 @@ func c09CheckAmount(t *rapid.T, c *vk.Case, cs *c09Case, where string, r int, v 
 	if c09Exceeds(v, b.strict) {
 		// one defect class per (level, policy): the resource is in the message, not in the signature
 		return c.Violation(t, where+":no-metric-pod-not-charged-at-request:"+b.policy, "%s", detail())
+	}
+	if c09Exceeds(v, b.full) {
+		return c.Violation(t, where+":dangling-metric-without-priority-class-not-charged", "bound incl. unclassified dangling metrics=%s; %s", c09F(b.full), detail())
 	}
 	return false
 }
@@ -999,6 +1010,10 @@ func TestVerifC09BatchBound(t *testing.T) {
 		danglingHP, hostHP := false, false
 		for _, d := range cs.Dangling {
 			danglingHP = danglingHP || c09IsHPClass(d.Prio)
+			if d.Prio == "" && (d.Use[0] > 0 || d.Use[1] > 0) {
+				c.Class("dangling-metric-without-priority-class")
+				c.ClassIf(len(pub.zones) > 0, "dangling-metric-without-priority-class+zones-published")
+			}
 		}
 		for _, h := range cs.HostApps {
 			hostHP = hostHP || c09IsHPClass(h.Prio)
